@@ -309,6 +309,14 @@ func (e *Engine) HandlerDynHook(regs []Registration, template, dispatch, rolePre
 			conds = append(conds, implies(eq(key.T, u.strLit(r.Name)), e.roleFact(r.Name, dispatch, rolePrefix, srv, logged)))
 		}
 		u.oblige(st, "assert", f.anchor+"dispatch/role and registration gate", and(conds...), "services handlers run only for services links, client handlers only for registered non-services sessions (pre-registration commands excepted)")
+		// the lookup succeeded (the call is only reached with ok == true) and the table holds exactly the
+		// scanned registrations: the key is one of the registered names
+		var isName []T
+		for _, r := range regs {
+			isName = append(isName, eq(key.T, u.strLit(r.Name)))
+		}
+		u.assume(st, or(isName...))
+		u.note("the command table holds exactly the registrations found in the init functions (" + fmt.Sprint(len(regs)) + " names)")
 		tplCopy := *tpl
 		if d := e.Specs.Contracts[dispatch]; d != nil {
 			// facts ProcessMessage guarantees at the dispatch beyond the template
@@ -366,6 +374,7 @@ func (e *Engine) GateLemma(h *ssa.Function, minParams int64, names []string, tem
 	}()
 	st := &State{reach: tTrue, heap: map[string]T{}}
 	st.alloc = u.fresh("alloc0", SInt)
+	u.alloc0 = st.alloc
 	u.emitFact(app(SBool, ">=", st.alloc, intLit(1000)))
 	env := map[string]*V{}
 	for _, p := range h.Params {
@@ -462,6 +471,7 @@ func (e *Engine) LemmaUnit(name string, pkg *types.Package) (u *Unit, err error)
 	}()
 	st := &State{reach: tTrue, heap: map[string]T{}}
 	st.alloc = u.fresh("alloc0", SInt)
+	u.alloc0 = st.alloc
 	u.emitFact(app(SBool, ">=", st.alloc, intLit(1000)))
 	env := map[string]*V{}
 	_, params, _, perr := parseSig("l(" + ct.Opts["params"] + ")")
